@@ -45,33 +45,25 @@ def run(d):
         except Exception as e:  # noqa
             return "refused | err " + fw.classify_exception(e, ERR_MAP)
         return "data | ok " + hx(r)
-    s = sc_obj(d["sc"])
-    if k == "enc":
-        return "ok " + hx(security.encrypt(s, b("title"), d["ic"], b("key"), b("x"), b("ak")))
-    if k == "dec":
-        return "ok " + hx(security.decrypt(s, b("title"), d["ic"], b("key"), b("x"), b("ak")))
-    if k == "tamper":
-        try:
+    try:
+        s = sc_obj(d["sc"])
+        if k == "enc":
+            r = security.encrypt(s, b("title"), d["ic"], b("key"), b("x"), b("ak"))
+        elif k == "dec":
             r = security.decrypt(s, b("title"), d["ic"], b("key"), b("x"), b("ak"))
-        except fw._Timeout:
-            raise
-        except Exception as e:  # noqa
-            return "refused | err " + fw.classify_exception(e, ERR_MAP)
-        return "data | ok " + hx(r)
-    if k == "gmac":
-        return "ok " + hx(security.gmac(s, b("title"), d["ic"], b("key"), b("ak"), b("x")))
-    if k == "wrap":
-        return "ok " + hx(security.wrap_key(s, b("key"), b("x")))
-    if k == "unwrap":
-        return "ok " + hx(security.unwrap_key(s, b("key"), b("x")))
-    if k == "tunwrap":
-        try:
+        elif k == "gmac":
+            r = security.gmac(s, b("title"), d["ic"], b("key"), b("ak"), b("x"))
+        elif k == "wrap":
+            r = security.wrap_key(s, b("key"), b("x"))
+        elif k == "unwrap":
             r = security.unwrap_key(s, b("key"), b("x"))
-        except fw._Timeout:
-            raise
-        except Exception as e:  # noqa
-            return "refused | err " + fw.classify_exception(e, ERR_MAP)
-        return "data | ok " + hx(r)
+        else:
+            raise fw.MachineryError(k)
+    except (fw._Timeout, fw.MachineryError):
+        raise
+    except Exception as e:  # noqa
+        return "refused | err " + fw.classify_exception(e, ERR_MAP)
+    return f"ok {hx(r)} | ok {hx(r)}"
     raise fw.MachineryError(k)
 
 
@@ -110,7 +102,7 @@ class C05(fw.Prop):
             line = f"sec {k} {d['sc']} {d['key']} {d['x']}"
         else:
             line = f"sec {k} {d['sc']} {d['title']} {d['ic']} {d['key']} {d['ak']} {d['x']}"
-        kind = "split" if k in ("tamper", "tunwrap") else "model"
+        kind = "model" if k == "block" else ("prop" if k == "sc" else "split")
         return fw.Case(line, lambda: run(d), kind, d, tags=(k, d.get("tag", "x")))
 
     def cases(self, rng, tier, deep):
